@@ -934,3 +934,30 @@ pub fn gen_model(rng: &mut Rng, weights: &[u64; 16], lim: &GenLimits) -> (Family
     }
     panic!("generator could not produce a model within limits");
 }
+
+/// Planted subset-sum / market-split feasibility model: `n` Booleans, `rows` equality rows
+/// with even weights; `planted` = the right-hand sides come from a 0/1 point (feasible),
+/// otherwise an odd right-hand side makes it integer-infeasible with a feasible relaxation.
+/// Needs a long branch & bound before the first integer-feasible point.
+pub fn gen_subset_sum(rng: &mut Rng, n: usize, rows: usize, planted: bool) -> GenModel {
+    let star: Vec<f64> = (0..n).map(|_| rng.range(0, 1) as f64).collect();
+    let mut out_rows = Vec::new();
+    for i in 0..rows {
+        let hi = 1i64 << (n as i64 - 2).clamp(4, 40);
+        let w: Vec<f64> = (0..n).map(|_| (2 * rng.range(hi / 8, hi)) as f64).collect();
+        let act: f64 = w.iter().zip(&star).map(|(a, b)| a * b).sum();
+        out_rows.push(Row {
+            name: format!("split{i}"),
+            coefs: w,
+            cmp: Cmp::Eq,
+            rhs: if planted { act } else { act + 1.0 },
+        });
+    }
+    GenModel {
+        vars: mk_vars((0..n).map(|i| format!("b{i}")).collect(), vec![Dom::Bool; n]),
+        rows: out_rows,
+        obj: vec![0.0; n],
+        offset: 0.0,
+        sense: Sense::Satisfy,
+    }
+}
